@@ -5,6 +5,10 @@ cd "$here"
 if ! /venv/bin/python -c "import hypothesis" 2>/dev/null; then
   /venv/bin/pip install --no-index --find-links /opt/veriftools/wheels hypothesis || exit 1
 fi
+# atheris (coverage-guided fuzzing, C18's fuzz stage) beside the repository's packages, without touching /venv
+if ! PYTHONPATH="$here/.deps" /venv/bin/python -c "import atheris" 2>/dev/null; then
+  /venv/bin/pip install -q --no-index --find-links /opt/veriftools/wheels --target "$here/.deps" atheris || echo "atheris not installed: C18's fuzz stage will be skipped"
+fi
 export PYTHONHASHSEED=0
 export VERIF_REPO="${VERIF_REPO:-/repo}"
 export PYTHONPATH="$VERIF_REPO:$here"
